@@ -18,7 +18,8 @@ namespace cx
     POP_BACK, CLEAR, RESIZE, RESIZE_VAL, RESERVE, SHRINK, ASSIGN_N, ASSIGN_RANGE, ASSIGN_ILIST,
     COPY_ASSIGN, MOVE_ASSIGN, CROSS_COPY_ASSIGN, CROSS_MOVE_ASSIGN, SWAP, APPEND_RANGE, APPEND_COPY,
     APPEND_MOVE, COPY_CTOR, MOVE_CTOR, CROSS_COPY_CTOR, CROSS_MOVE_CTOR, NM_ERASE, NM_ERASE_IF,
-    COMPARE, ACCESS, INSERT_ALIAS, PUSH_BACK_ALIAS, NKINDS
+    COMPARE, ACCESS, INSERT_ALIAS, PUSH_BACK_ALIAS, INSERT_N_ALIAS, EMPLACE_ALIAS,
+    EMPLACE_BACK_ALIAS, RESIZE_ALIAS, NKINDS
   };
 
   struct op
@@ -234,6 +235,10 @@ namespace cx
           break;
         case INSERT_ALIAS:  if (sz) { auto it = x.insert (x.begin () + pos, x[o.p1 % sz]); ret = it - x.begin (); } break;
         case PUSH_BACK_ALIAS: if (sz) x.push_back (x[o.p1 % sz]); break;
+        case INSERT_N_ALIAS: if (sz) { auto it = x.insert (x.begin () + pos, (o.p2 % 5), x[o.p1 % sz]); ret = it - x.begin (); } break;
+        case EMPLACE_ALIAS:  if (sz) { auto it = x.emplace (x.begin () + pos, x[o.p1 % sz]); ret = it - x.begin (); } break;
+        case EMPLACE_BACK_ALIAS: if (sz) ret = val_of (x.emplace_back (x[o.p1 % sz])); break;
+        case RESIZE_ALIAS:   if (sz) x.resize (o.p2 % 12, x[o.p1 % sz]); break;
         default: break;
       }
       hasher h;
